@@ -25,6 +25,7 @@ type e2eBudgetCase struct {
 	Per    uint64   `json:"per"`
 	Len    int      `json:"len"`
 	Reps   int      `json:"reps,omitempty"` // sequential requests on the same pair of instances (default 1), each over a fresh chain
+	Pers   []uint64 `json:"pers,omitempty"` // per-request budget of each sequential request set by the hook (overrides Per; len = Reps): a request's budget is its own, it must not leak into later requests
 	Local  int      `json:"local,omitempty"` // the requestor already holds the first Local blocks of each chain (its request then asks the responder to skip them); < Len
 	Tags   []string `json:"tags,omitempty"`
 }
@@ -54,19 +55,20 @@ func runE2EBudget(c e2eBudgetCase) (out []e2eBudgetObs, err error) {
 	}
 	req := w.Start(0, reqOpts...)
 	resp := w.Start(1, respOpts...)
-	var respBlocks, reqBlocks uint64
+	var respBlocks, reqBlocks, curPer uint64
+	curPer = c.Per
 	resp.RegisterIncomingRequestHook(func(p peer.ID, r graphsync.RequestData, ha graphsync.IncomingRequestHookActions) {
 		ha.ValidateRequest()
-		if c.Side == "responder" && c.Per > 0 {
-			ha.MaxLinks(c.Per)
+		if per := atomic.LoadUint64(&curPer); c.Side == "responder" && per > 0 {
+			ha.MaxLinks(per)
 		}
 	})
 	resp.RegisterOutgoingBlockHook(func(p peer.ID, r graphsync.RequestData, b graphsync.BlockData, ha graphsync.OutgoingBlockHookActions) {
 		atomic.AddUint64(&respBlocks, 1)
 	})
 	req.RegisterOutgoingRequestHook(func(p peer.ID, r graphsync.RequestData, ha graphsync.OutgoingRequestHookActions) {
-		if c.Side == "requestor" && c.Per > 0 {
-			ha.MaxLinks(c.Per)
+		if per := atomic.LoadUint64(&curPer); c.Side == "requestor" && per > 0 {
+			ha.MaxLinks(per)
 		}
 	})
 	req.RegisterIncomingBlockHook(func(p peer.ID, r graphsync.ResponseData, b graphsync.BlockData, ha graphsync.IncomingBlockHookActions) {
@@ -74,7 +76,13 @@ func runE2EBudget(c e2eBudgetCase) (out []e2eBudgetObs, err error) {
 	})
 	// every request of the case runs on the same two instances: a budget is per request, so each must
 	// behave as the first one does
+	if len(c.Pers) > 0 {
+		reps = len(c.Pers)
+	}
 	for rep := 0; rep < reps; rep++ {
+		if len(c.Pers) > 0 {
+			atomic.StoreUint64(&curPer, c.Pers[rep])
+		}
 		d := dag.ChainSalt(c.Len, int64(rep))
 		for i, b := range d.Blocks {
 			w.Nodes[1].Store.Put(dagLink(b), b.Data)
@@ -126,7 +134,7 @@ Definition mk_ebcase := Build_ebcase.
 func driveE2EBudget(c *ctx) error {
 	w := cw.New(c.out, e2eBudgetHeader, "ebcase", []cw.Check{{Name: "MON07E", Fn: "ebcase_ok"}})
 	w.Stats.Rule = "two real GraphSync instances over the libp2p mocknet; chain DAGs of 1..6 blocks on the responder; every combination of global and per-request " +
-		"link budget in {0..4} on the requestor and on the responder; 1-3 sequential requests (fresh chains) per pair of instances; responder-side cases also with the requestor holding the first 1-2 blocks (so the request carries do-not-send-first-blocks); observed = blocks loaded by the enforcing peer and whether the request failed; " +
+		"link budget in {0..4} on the requestor and on the responder; 1-3 sequential requests (fresh chains) per pair of instances, also with per-request budgets that differ from request to request (hook sets MaxLinks for some only); responder-side cases also with the requestor holding the first 1-2 blocks (so the request carries do-not-send-first-blocks); observed = blocks loaded by the enforcing peer and whether the request failed; " +
 		"non-trivial = both budgets non-zero; distinct = distinct terms"
 	run := func(ec e2eBudgetCase, tag string) error {
 		obs, err := runE2EBudget(ec)
@@ -141,9 +149,13 @@ func driveE2EBudget(c *ctx) error {
 			side = 1
 		}
 		for i, o := range obs {
-			term := fmt.Sprintf("mk_ebcase %d %d %d %d %d %s", side, ec.Global, ec.Per, ec.Len, o.loaded, cw.Bool(o.failed))
+			per := ec.Per
+			if len(ec.Pers) > 0 {
+				per = ec.Pers[i]
+			}
+			term := fmt.Sprintf("mk_ebcase %d %d %d %d %d %s", side, ec.Global, per, ec.Len, o.loaded, cw.Bool(o.failed))
 			ec.Tags = []string{"kind:" + tag, "side:" + ec.Side, fmt.Sprintf("request-no:%d", i+1)}
-			w.Add(term, ec, ec.Global > 0 && ec.Per > 0, ec.Tags...)
+			w.Add(term, ec, (ec.Global > 0 && per > 0) || len(ec.Pers) > 0, ec.Tags...)
 		}
 		return nil
 	}
@@ -166,6 +178,15 @@ func driveE2EBudget(c *ctx) error {
 		lens = []int{1, 2, 3, 4, 5, 6, 7}
 	}
 	for _, side := range []string{"requestor", "responder"} {
+		// per-request budgets that differ between the sequential requests of one pair of instances (a hook that sets
+		// MaxLinks for some requests only): each request is capped by ITS budget and the global one, never by an earlier request's
+		for g := 0; g <= maxB; g += 3 {
+			for _, pers := range [][]uint64{{2, 0}, {1, 4, 0}, {3, 1, 5}, {0, 2, 0, 6}} {
+				if err := run(e2eBudgetCase{Side: side, Global: uint64(g), Pers: pers, Len: 5}, "varying-per-request"); err != nil {
+					return err
+				}
+			}
+		}
 		for g := 0; g <= maxB; g++ {
 			for p := 0; p <= maxB; p++ {
 				// one DAG length per combination in the quick tier, chosen to straddle the budget
